@@ -587,7 +587,7 @@ func genTimeScenario(r *rng, cold bool) *Scenario {
 func genContendScenario(r *rng) *Scenario {
 	sc := &Scenario{}
 	user := r.chance(0.4)
-	sc.Shared = []EngineSpec{{pickBackend(r), user, 0}}
+	sc.Shared = []EngineSpec{{pickBackend(r), user, 0, false}}
 	warm := pickProg(r, user)
 	sc.Pre = []PreCompile{{0, warm}}
 	srcs := []string{genericSrcs[r.intn(len(genericSrcs))], genericSrcs[r.intn(len(genericSrcs))]}
@@ -644,7 +644,7 @@ func genRegexScenario(r *rng, cold bool) *Scenario {
 			if r.chance(0.5) {
 				ops = append(ops, Op{K: "eval", Prog: &p})
 			} else {
-				spec := EngineSpec{backends[r.intn(4)], false, 0}
+				spec := EngineSpec{backends[r.intn(4)], false, 0, false}
 				ops = append(ops, Op{K: "engine", Spec: &spec})
 				ops = append(ops, Op{K: "compile", E: len(ops) - 1, Prog: &p})
 				ops = append(ops, Op{K: "invoke", C: len(ops) - 1, Env: p.Env, EnvSh: r.chance(0.5)})
@@ -670,7 +670,7 @@ var lazySrcs = []string{
 
 func genLazyScenario(r *rng) *Scenario {
 	sc := &Scenario{ColdFirst: r.chance(0.5)}
-	sc.Shared = []EngineSpec{{pickBackend(r), true, 0}}
+	sc.Shared = []EngineSpec{{pickBackend(r), true, 0, false}}
 	np := 2 + r.intn(2)
 	for i := 0; i < np; i++ {
 		sc.Pre = append(sc.Pre, PreCompile{0, Prog{lazySrcs[r.intn(len(lazySrcs))], []string{"map", "struct"}[r.intn(2)], true, false}})
@@ -698,7 +698,7 @@ func genRegisterScenario(r *rng, cold bool) *Scenario {
 	k := 2 + r.intn(3)
 	for t := 0; t < k; t++ {
 		var ops []Op
-		spec := EngineSpec{backends[r.intn(4)], r.chance(0.3), 0}
+		spec := EngineSpec{backends[r.intn(4)], r.chance(0.3), 0, false}
 		ops = append(ops, Op{K: "engine", Spec: &spec})
 		if r.chance(0.8) {
 			p := pickProg(r, spec.UserFuns)
@@ -748,7 +748,7 @@ var layoutSrcs = []string{
 
 func genLayoutScenario(r *rng) *Scenario {
 	sc := &Scenario{ColdFirst: r.chance(0.5)}
-	sc.Shared = []EngineSpec{{[]string{"closure", "closure", "vm", "vmcall", "interp", "dbg"}[r.intn(6)], false, 0}}
+	sc.Shared = []EngineSpec{{[]string{"closure", "closure", "vm", "vmcall", "interp", "dbg"}[r.intn(6)], false, 0, false}}
 	np := 1 + r.intn(2)
 	for i := 0; i < np; i++ {
 		sc.Pre = append(sc.Pre, PreCompile{0, Prog{Src: layoutSrcs[r.intn(len(layoutSrcs))], Env: []string{"struct", "structR", "map"}[r.intn(3)]}})
@@ -794,7 +794,7 @@ func genScenario0(r *rng, cold bool) *Scenario {
 	if !cold {
 		ns := r.intn(3)
 		for i := 0; i < ns; i++ {
-			sc.Shared = append(sc.Shared, EngineSpec{pickBackend(r), r.chance(0.5), 0})
+			sc.Shared = append(sc.Shared, EngineSpec{pickBackend(r), r.chance(0.5), 0, false})
 		}
 		for e := range sc.Shared {
 			np := 1 + r.intn(3)
@@ -835,7 +835,7 @@ func genScenario0(r *rng, cold bool) *Scenario {
 				callEnv[i] = p.Env
 			case c < 7 || len(myEngines) == 0 && c < 9: // F2: private engine
 				if len(myEngines) == 0 || r.chance(0.3) {
-					spec := EngineSpec{pickBackend(r), r.chance(0.5), 0}
+					spec := EngineSpec{pickBackend(r), r.chance(0.5), 0, false}
 					ops = append(ops, Op{K: "engine", Spec: &spec})
 					myEngines = append(myEngines, i)
 					i++
